@@ -24,5 +24,5 @@ for sid in sorted(os.listdir(os.path.join(ROOT, 'seeded'))):
         meta.setdefault('regression_runs', []).append({'at': time.strftime('%Y-%m-%d %H:%M'), 'exit': rc, 'concrete_replay': concrete})
         json.dump(meta, open(os.path.join(d, 'meta.json'), 'w'), indent=1)
     finally:
-        sh('git -C /repo checkout -- .')
+        sh('git -C /repo checkout -- . && git -C /repo clean -fdq src')
 sys.exit(1 if missed else 0)
